@@ -97,6 +97,8 @@ def make_tm(cfg):
         recomp_factor=cfg.get("recomp_factor", 0.5),
         recomp_max=cfg.get("recomp_max", 10),
     )
+    if cfg.get("atol") is not None:
+        kw["atol"] = cfg["atol"]
     return pp.TimeManager(**kw)
 
 
@@ -118,10 +120,12 @@ class Monitor:
         self.cfg = cfg
         self.sched = [float(t) for t in cfg["schedule"]]
         self.tf = self.sched[-1]
-        # "hits a scheduled time" / "does not exceed the final time" are decided up to
-        # this absolute tolerance: >= 1e3 x accumulated round-off (~1e-14 for <1e3
-        # steps of O(1) size), <= 1e-3 x the smallest step any configuration can take.
-        self.tol = 1e-9 * max(1.0, abs(self.tf))
+        # "hits scheduled time s" / "does not exceed the final time" are decided with the
+        # manager's own notion of equality, loosened by a factor 10:
+        # |t - s| <= 10 * (rtol*|s| + atol), rtol = 1e-10 (TimeManager default), atol = the
+        # value given to the constructor (default 1e-16). No other absolute constant
+        # enters, so the monitor is invariant under a change of time unit.
+        self.tol = None  # see tol_at
         self.dt_min, self.dt_max = prescribed_dt_bounds(cfg)
         self.rmax = cfg.get("recomp_max", 10)
         self.const = bool(cfg.get("constant_dt", False))
@@ -142,8 +146,12 @@ class Monitor:
         return (self.t_last, self.hit, self.fails)
 
     # -- helpers
+    def tol_at(self, s):
+        atol = self.cfg.get("atol")
+        return 10.0 * (1e-10 * abs(s) + (1e-16 if atol is None else atol))
+
     def _lands_on_schedule(self, t):
-        return any(abs(t - s) <= self.tol for s in self.sched)
+        return any(abs(t - s) <= self.tol_at(s) for s in self.sched)
 
     def check_dt(self, time, dt):
         """Step size about to be used from ``time``. Returns a violation text or None."""
@@ -177,11 +185,11 @@ class Monitor:
         v = []
         if not (t_new > self.t_last):
             v.append("accepted times do not strictly increase")
-        if t_new > self.tf + self.tol:
+        if t_new > self.tf + self.tol_at(self.tf):
             v.append("accepted time exceeds the final time")
         if self.hit < len(self.sched):
             s = self.sched[self.hit]
-            if abs(t_new - s) <= self.tol:
+            if abs(t_new - s) <= self.tol_at(s):
                 self.hit += 1
             elif t_new > s:
                 v.append("scheduled time skipped")
@@ -213,7 +221,7 @@ class Monitor:
             return v
         if not budget_left:
             v.append("failed step did not raise although recomputation was exhausted")
-        if abs(time_after - self.t_last) > 1e-12 * max(1.0, abs(self.t_last)):
+        if abs(time_after - self.t_last) > 1e-12 * (abs(self.t_last) + abs(dt_used)):
             v.append("failed step did not return the clock to the last accepted time")
         self.fails += 1
         w = self.check_dt(time_after, dt_next)
@@ -404,7 +412,7 @@ def monitor_trace(cfg, trace, end):
         viol.append((0, "initial " + w))
     for i, (a, t_att, dt_used, t_after, dt_after, fin, exc) in enumerate(trace):
         # the clock value the solver saw must be last accepted time + step size
-        if abs(t_att - (mon.t_last + mon.dt)) > 1e-12 * max(1.0, abs(t_att)):
+        if abs(t_att - (mon.t_last + mon.dt)) > 1e-12 * (abs(t_att) + abs(mon.dt)):
             viol.append((i, "solver was called at a time different from last accepted time + dt"))
         if a == FAIL:
             vs = mon.failed(dt_used, exc, t_after, dt_after)
